@@ -55,7 +55,7 @@ RULE = (
 CLASSES = [
     "nested_dict", "list_mutation", "multi_handle", "project_doc", "buffer_cap0", "nested_blocks", "forced_flush", "block_left_by_exception",
     "multi_handle_in_block", "stale_object_in_block", "doc_after_remove", "doc_after_rekey", "attr_access", "assign_live_view", "type_drift", "write_deferred", "keyerror_matched",
-    "lifecycle_between_blocks", "job_clear", "copy_handle_follows_rekey", "capacity_in_block",
+    "lifecycle_between_blocks", "job_clear", "job_reset", "copy_handle_follows_rekey", "capacity_in_block",
 ]
 ASSUMPTIONS = [
     "document equality is Python == on the parsed values; a missing document file is the empty document",
@@ -103,7 +103,7 @@ READ_OPS = (
     "read_getitem", "read_contains", "read_len", "read_keys", "read_get", "read_call", "read_getattr", "read_eq", "read_items",
     "read_nested",
 )
-LIFECYCLE_OPS = ("job_remove_init", "job_rekey", "job_clear")
+LIFECYCLE_OPS = ("job_remove_init", "job_rekey", "job_clear", "job_reset")
 EXPECTED_EXC = (KeyError, IndexError, ValueError, AttributeError)
 
 
@@ -325,6 +325,8 @@ class Run:
                 if o["group"] == w["group"]:
                     if what == "rekey":
                         continue  # shallow copies share the state point object and follow the re-key
+                    if what == "remove" and getattr(self, "shared_doc", None) is not None and getattr(o["obj"], "_document", None) is self.shared_doc:
+                        continue  # the copy shares the very document object remove() emptied: it stays a valid view
                     self.handles[t][i] = {"obj": copy.copy(w["obj"]), "kind": "copy", "group": w["group"]}
                 else:
                     self.handles[t][i] = self.fresh_handle(t, i)
@@ -684,17 +686,27 @@ class Run:
         return None
 
     def lifecycle(self, name, op, t, h):
-        self.drop_refs(t)  # the job's document object is replaced by remove()/re-key
         job = h["obj"]
+        if name == "job_rekey":
+            self.drop_refs(t)  # the job's document moves with the directory: references taken before denote the old place
+        elif name == "job_remove_init":
+            # remove() empties the document object the handle holds at that moment and lets go of it; a reference
+            # to exactly that object stays a valid (now empty) view of the file. References to older objects
+            # (taken before an earlier remove) are not reached by it: dropped, as the design says.
+            cur = getattr(job, "_document", None)
+            for hs in self.handles[t]:
+                if isinstance(hs, dict) and hs.get("docref") is not None and (cur is None or hs["docref"] is not cur):
+                    hs.pop("docref", None)
+            self.shared_doc = cur
         in_block = bool(self.stack)
-        if name == "job_clear":
+        if name in ("job_clear", "job_reset"):
             try:
-                job.clear()
+                job.clear() if name == "job_clear" else job.reset()
             except Exception as e:
-                self.mm("unexpected_exception", f"job.clear() raised {type(e).__name__}: {e}")
+                self.mm("unexpected_exception", f"job.{name[4:]}() raised {type(e).__name__}: {e}")
                 return
             self.model[t] = {}
-            self.cl.add("job_clear")
+            self.cl.add(name)
             return
         if name == "job_remove_init":
             try:
@@ -1081,7 +1093,7 @@ _W = [
     ("list_remove", 2), ("list_delitem", 1), ("list_clear", 1),
     ("read_getitem", 2), ("read_contains", 1), ("read_len", 1), ("read_keys", 1), ("read_get", 1), ("read_call", 1),
     ("read_getattr", 1), ("read_eq", 1), ("read_items", 1), ("read_nested", 2),
-    ("job_remove_init", 2), ("job_rekey", 3), ("job_clear", 1),
+    ("job_remove_init", 2), ("job_rekey", 3), ("job_clear", 1), ("job_reset", 1),
 ]
 _OPNAMES = [n for n, w in _W for _ in range(w)]
 
